@@ -104,7 +104,7 @@ NP_CALLS = [
     ('einsum', ['i,i->', [1, 2, 3], [0.5, 1, 2]]), ('trapezoid', [[1, 2, 4.5], [0, 1, 3]]), ('cumprod', [[1, 2, 3.5]]), ('insert', [[1, 2, 4], 1, 7.5]),
     ('roll', [[1, 2, 3.5], 1]), ('tile', [[1, 2.5], 2]), ('repeat', [[1, 2.5], 2]), ('add', [[1, 2], [0.5, 1]]), ('subtract', [[1, 2], 0.5]), ('multiply', [[1, 2], [0.5, 3]]),
     ('negative', [[1, -2.5]]), ('reciprocal', [[2, 0.5]]), ('atleast_1d', [[1, 2.5]]), ('transpose', [[[1, 2], [3.5, 4]]]), ('squeeze', [[[1, 2.5]]]),
-    ('ediff1d', [[1, 4, 9.5]]), ('select', [([True, False, False], [False, True, False]), ([1.5, 2, 3], [10, 20, 30])], dict(default=0)),
+    ('ediff1d', [[1, 4, 9.5]]),
     ('array', [[1, 2, 3]], dict(dtype=float)), ('zeros_like', [[1.5, 2]]), ('full_like', [[1.5, 2], 3]), ('arange', [1, 7, 2]),
     ('ceil', [[-1.5, 2.25]]), ('flip', [[1, 2, 3.5]]), ('count_nonzero', [[0, 2, 0, 1.5]]), ('vstack', [([1, 2], [3, 4.5])]), ('linspace', [0, 1, 5]),
 ]
